@@ -521,6 +521,9 @@ class Storage:
             return rec.log('noop')
         ignore = {0: False, 1: True, 2: None}[ign]
         objs, props = self.labels[info['li']]
+        if info['has_lat'] is None:
+            h = self.send(node, {'op': 'has_lattice', 'slot': slot})
+            info['has_lat'] = bool(h.get('has'))
         r = self.send(node, {'op': 'todict', 'slot': slot, 'ignore_lattice': ignore})
         with_lat = (ignore is False) or (ignore is None and info['has_lat'])
         if ignore is None and info['has_lat']:
@@ -528,7 +531,7 @@ class Storage:
         if ignore is None and not info['has_lat']:
             rec.probe('lazy_lattice_absent_at_dump')
         want = info['fca'].documented_dict(objs, props, with_lattice=with_lat)
-        rec.check('C11.todict_eq_documented', r['ok'] and r['dict'] == _jsonable(want) and r['keys'] == list(want),
+        rec.check('C11.todict_eq_documented', r['ok'] and r['dict'] == _jsonable(want) and set(r['keys']) == set(want),
                   lambda: f'todict(ignore_lattice={ignore}) = {str(r)[:600]} documented {str(_jsonable(want))[:600]}')
         if with_lat:
             info['has_lat'] = True
@@ -628,8 +631,10 @@ class Storage:
         with open(p, encoding='utf-8') as fh:
             got = ast.literal_eval(fh.read())
         objs, props = self.labels[info['li']]
+        if info['has_lat'] is None:     # e.g. an unpickled context: adopt what the library says
+            info['has_lat'] = 'lattice' in got
         want = info['fca'].documented_dict(objs, props, with_lattice=info['has_lat'])
-        rec.check('C11.literal_eq_documented', got == want,
+        rec.check('C11.literal_eq_documented', _jsonable(got) == _jsonable(want),
                   lambda: f'literal text evaluates to {str(got)[:500]} documented {str(want)[:500]}')
         if info['has_lat']:
             rec.probe('lazy_lattice_present_at_dump')
@@ -731,7 +736,9 @@ class Storage:
         if not r['ok']:
             self.slots.pop((node, dst), None)
             return rec.log('failed')
-        new = {'li': f['li'], 'fca': f['fca'], 'kind': what if what == 'lat' else 'ctx', 'has_lat': what == 'lat'}
+        # whether an unpickled context already carries a lattice is not specified: unknown until asked
+        new = {'li': f['li'], 'fca': f['fca'], 'kind': what if what == 'lat' else 'ctx',
+               'has_lat': True if what == 'lat' else None}
         self.slots[(node, dst)] = new
         self.battery(node, dst, new, 'C11.pickle_battery_eq_recomputed')
         # every other live object on that node must be unaffected by the load (same labels, other table)
@@ -791,11 +798,19 @@ class Storage:
             rec.check('C12.overwrite_exact', False, lambda: f'file {target} is not valid {enc} after tofile: {e}')
             self.files.pop(target, None)
             return rec.log('undecodable')
-        # the file holds exactly the new text (no stale tail), i.e. what tostring() gives
-        s = self.send(node, {'op': 'tostring', 'slot': slot, 'frmat': frmat, 'kwargs': kwargs})
-        if s['ok'] and frmat != 'python-literal':
-            rec.check('C12.overwrite_exact', text.rstrip('\r\n') == s['text'].rstrip('\r\n'),
-                      lambda: f'file content {text[-300:]!r} differs from tostring {s["text"][-300:]!r}')
+        # history independence of the disk: writing over an existing (longer, shorter, other-format) file must
+        # leave exactly the bytes that writing the same thing to a fresh path leaves
+        if before is not None:
+            fresh = p + '.fresh'
+            r2 = self.send(node, {'op': 'tofile', 'slot': slot, 'path': fresh, 'frmat': frmat, 'encoding': enc,
+                                  'kwargs': kwargs})
+            if r2['ok']:
+                with open(fresh, 'rb') as fh:
+                    clean = fh.read()
+                os.unlink(fresh)
+                rec.check('C12.overwrite_exact', data == clean,
+                          lambda: f'{target} overwritten: {len(data)} bytes ...{data[-120:]!r}, the same dump to a '
+                                  f'fresh path: {len(clean)} bytes ...{clean[-120:]!r}')
         self.ref_read_check(frmat, text, info, kwargs, f'file {target} written by tofile({frmat})')
         self.files[target] = {'form': frmat, 'li': info['li'], 'fca': info['fca'], 'enc': enc, 'kwargs': kwargs,
                               'permuted': False, 'has_lat': False, 'writer': 'lib',
@@ -810,9 +825,7 @@ class Storage:
                 objs, props = self.labels[info['li']]
                 want = info['fca'].documented_dict(objs, props, with_lattice=False)
                 got = {k: d.get(k) for k in want}
-                got['context'] = [tuple(r) for r in got['context']]
-                got['objects'], got['properties'] = tuple(got['objects']), tuple(got['properties'])
-                ok = got == want
+                ok = _jsonable(got) == _jsonable(want)
             except Exception as e:  # noqa: BLE001
                 ok, got = False, repr(e)
             rec.check('C12.ref_reads_lib', ok, lambda: f'{what}: literal evaluates to {str(got)[:500]}')
